@@ -462,6 +462,7 @@ func checkAADAgreement(c *Ctx) {
 	open, p2 := shape(c.MustFunc("Memberlist.decryptRemoteState"), "decryptPayload", 2)
 	_ = p2
 	checkEncryptOverhead(c, "C12")
+	checkNarrowingFor(c, "C12")
 	checkAADConcat(c, "C12")
 	c.Check("C12/aad/stream", rule, p1, seal != "" && seal == open && strings.HasPrefix(seal, "appendBytes(HDR.Bytes()[:5],[]byte(streamLabel))"), "seal authenticates "+seal+", open authenticates "+open)
 	// appendBytes never aliases its first argument's spare capacity when it has to join two parts
